@@ -51,6 +51,7 @@ var osRenames = []rename{
 	{"dir.go", "", "ReadDir", "dsimRealReadDir"},
 	{"path.go", "", "RemoveAll", "dsimRealRemoveAll"},
 	{"tempfile.go", "", "nextRandom", "dsimRealnextRandom"},
+	{"root.go", "Root", "OpenFile", "dsimRealOpenFile"},
 }
 
 // textRewrite is a regexp rewrite of one repo file. min is the number of matches required.
